@@ -128,7 +128,7 @@ def list_props(item_class: type, prop_name="_props"):
         # noinspection PyDecorator, PyShadowingNames
         @staticmethod
         def _default(props: dict = props) -> dict:
-            return {k: pd.Series(v[1], dtype=v[0]) for k, v in props.items()}
+            return {k: pd.Series([v[1]], dtype=v[0]) for k, v in props.items()}
 
         cl._default = _default
 
